@@ -98,8 +98,11 @@ def cases(rng, tier):
 	toks = directed_tokens()
 	combos = [(f, t, tm, b) for f in FIELDS for t in toks for tm in TEMPLATES for b in BASES]
 	if tier != 'thorough':
-		# a sample of the whole product, and every token at least twice in a field the parser consults
-		combos = rng.sample(combos, 4000) + [(rng.choice(FIELDS[:9]), t, rng.choice(TEMPLATES), rng.choice(BASES)) for t in toks for _ in (0, 1)]
+		# the whole product for the token dictionary, every codec-name token at least twice in a field the parser consults, and a sample of the rest
+		base = set(wire.TOKENS)
+		combos = ([(f, t, tm, b) for f in FIELDS for t in wire.TOKENS for tm in TEMPLATES for b in BASES]
+			+ [(rng.choice(FIELDS[:9]), t, rng.choice(TEMPLATES), rng.choice(BASES)) for t in toks if t not in base for _ in (0, 1)]
+			+ rng.sample(combos, 2000))
 	for f, t, tm, b in combos:
 		yield ('s', 'server', b % (f, tm % t), ((),))
 	# every scheme name the URI registry knows on this tree, and the well-known ones it may learn, as absolute-form targets
